@@ -2,6 +2,7 @@ import FractopoModel.Generated.Windows
 import FractopoModel.Generated.ValidationDefaults
 import FractopoModel.Generated.JunctionShift
 import FractopoModel.Lemmas.Underlap
+import FractopoModel.Generated.AreaValidator
 /-!
 # C10 — near-threshold errors are reported inside the documented windows only
 (the window arithmetic; the detectors' geometry is tied by stream S10)
@@ -99,6 +100,56 @@ theorem C10_underlap_silent_iff {L P : Type} (dist : L → P → Rat) (t m : Rat
       · simp only [hw, Bool.false_eq_true, if_false, Option.map_eq_none_iff, List.find?_eq_none]
         intro c hc
         simp [hn c hc]
+
+/-! ### the target-area validator (regenerated loops) -/
+
+theorem area_inner_eq {L P A : Type} (endpoints_of : L → List P) (candidate : P → L → A → Bool) (bdist : P → A → Rat) (geom : L) (all : List A)
+    (t m a : Rat) (ep : P) (l : List A) :
+    Gen.area_validation_loop2 endpoints_of candidate bdist geom all t m a ep l =
+      if l.any (fun ar => candidate ep geom ar && Gen.area_window (bdist ep ar) t m a) then .ret false else .done () := by
+  induction l with
+  | nil => simp [Gen.area_validation_loop2]
+  | cons ar rest ih =>
+    simp only [Gen.area_validation_loop2, List.any_cons, Gen.area_window]
+    by_cases hc : candidate ep geom ar = true
+    · by_cases hw : (decide (t ≤ bdist ep ar) && decide (bdist ep ar < t * m * a)) = true
+      · simp [hc, hw]
+      · simp only [hc, if_true, hw, Bool.false_eq_true, if_false, Bool.and_false, Bool.false_or]
+        simpa [Gen.area_window] using ih
+    · simp only [hc, Bool.false_eq_true, if_false, Bool.false_and, Bool.false_or]
+      simpa [Gen.area_window] using ih
+
+theorem area_outer_eq {L P A : Type} (endpoints_of : L → List P) (candidate : P → L → A → Bool) (bdist : P → A → Rat) (geom : L) (areas : List A)
+    (t m a : Rat) (alleps eps : List P) :
+    Gen.area_validation_loop1 endpoints_of candidate bdist geom areas t m a alleps eps =
+      if eps.any (fun ep => areas.any fun ar => candidate ep geom ar && Gen.area_window (bdist ep ar) t m a) then .ret false else .done () := by
+  induction eps with
+  | nil => simp [Gen.area_validation_loop1]
+  | cons ep rest ih =>
+    simp only [Gen.area_validation_loop1, area_inner_eq, List.any_cons]
+    by_cases h : (areas.any fun ar => candidate ep geom ar && Gen.area_window (bdist ep ar) t m a) = true
+    · simp [h]
+    · simp only [h, Bool.false_eq_true, if_false, Bool.false_or]
+      exact ih
+
+/-- **TRACE UNDERLAPS TARGET AREA is reported inside the documented window only**: the regenerated validation method (both
+loops) fails exactly when some end is a candidate for some area polygon (inside it, on a part of the trace that does not reach
+the boundary) and its distance to that polygon's boundary lies in `[t, t·m·a)` (the regenerated window of `C10_area_window`) -/
+theorem C10_generated_area_validation {L P A : Type} (endpoints_of : L → List P) (candidate : P → L → A → Bool) (bdist : P → A → Rat)
+    (geom : L) (areas : List A) (t m a : Rat) :
+    Gen.area_validation endpoints_of candidate bdist geom areas t m a =
+      !((endpoints_of geom).any fun ep => areas.any fun ar => candidate ep geom ar && Gen.area_window (bdist ep ar) t m a) := by
+  unfold Gen.area_validation
+  simp only [area_outer_eq]
+  cases h : ((endpoints_of geom).any fun ep => areas.any fun ar => candidate ep geom ar && Gen.area_window (bdist ep ar) t m a) <;> simp
+
+/-- the quick candidate checks: an end outside the polygon is never a candidate; an end inside with the whole trace inside
+(exactly, or after the 1 + t scaling of the polygon) always is; otherwise the split-based test decides (`none`) -/
+theorem C10_simple_underlapping_checks (epIn geomIn geomInScaled : Bool) :
+    Gen.simple_underlapping_checks epIn geomIn geomInScaled =
+      if !epIn then some false else if geomIn || geomInScaled then some true else none := by
+  unfold Gen.simple_underlapping_checks
+  cases epIn <;> cases geomIn <;> cases geomInScaled <;> rfl
 
 /-- non-vacuity: one candidate, first end 1.05 t away (inside the window), second end free; the oracle says "underlapping" -/
 example :
